@@ -43,7 +43,7 @@ def drive(rec):
     n = rec["n"]
     t = {"n": n, "gram": rec["gram"], "asym": rec["asym"], "mols": rec["mols"], "bonds": rec["bonds"], "ops": [],
          "thr": xtal.bond_table(rec), "mass": xtal.mass_table(rec), "exc_conn": "", "exc_mols": "",
-         "exc_unique": "", "off": False, "ucpts": [], "edges": [], "ucmols": [], "unique": [],
+         "exc_unique": "", "off": False, "ucpts": [], "edges": [], "ucmols": [], "unique": [], "bfs": [],
          "meta": {"recipe": rec, "source": rec.get("src", "random"),
                   "impl_call": "Crystal(...%d %r).unit_cell_connectivity/unit_cell_molecules/symmetry_unique_molecules" % (
                       rec["number"], rec["choice"]),
@@ -64,7 +64,17 @@ def drive(rec):
         t["exc_conn"] = type(e).__name__
         return t
     try:
-        mols = cr.unit_cell_molecules()
+        try:
+            from chmpy.util import _verif          # step events (hook commit in /repo, guard CHMPY_VERIF=1)
+            _verif.install(lambda ev: t["bfs"].append({"root": ev[1] + 1, "i": ev[2] + 1, "j": ev[3] + 1,
+                                                       "shift": [int(round(x)) for x in ev[4]]}) if ev[0] == "bfs_edge" else None)
+        except ImportError:
+            _verif = None
+        try:
+            mols = cr.unit_cell_molecules()
+        finally:
+            if _verif is not None:
+                _verif.install(None)
         for m in mols:
             atoms, o = project_mol(cr, m, n)
             off |= o
